@@ -106,6 +106,19 @@ func (n *NodeProcessor) Open() error {
 // Close closes the NodeProcessor, terminating all data tranmission to the node.
 // When closed it will not accept hinted-handoff data.
 func (n *NodeProcessor) Close() error {
+	_, err := n.close(false)
+	return err
+}
+
+// CloseIfEmpty closes the NodeProcessor unless its queue holds data, and reports whether
+// it is closed. The decision is taken under the write lock, which WriteShard holds for
+// reading while it appends: no write can be accepted between the check and the close.
+func (n *NodeProcessor) CloseIfEmpty() (bool, error) {
+	return n.close(true)
+}
+
+func (n *NodeProcessor) close(onlyIfEmpty bool) (bool, error) {
+	nonEmpty := false
 	if wait := func() bool {
 		n.mu.Lock()
 		defer n.mu.Unlock()
@@ -113,10 +126,14 @@ func (n *NodeProcessor) Close() error {
 		if n.closed() {
 			return false // Already closed.
 		}
+		if onlyIfEmpty && !n.queue.Empty() {
+			nonEmpty = true
+			return false
+		}
 		close(n.done)
 		return true
 	}(); !wait {
-		return nil
+		return !nonEmpty, nil
 	}
 	n.wg.Wait()
 
@@ -124,7 +141,7 @@ func (n *NodeProcessor) Close() error {
 	n.mu.Lock()
 	defer n.mu.Unlock()
 	n.done = nil
-	return n.queue.Close()
+	return true, n.queue.Close()
 }
 
 func (n *NodeProcessor) closed() bool {
